@@ -52,7 +52,7 @@ META = {
             "receiver_return_is_resume is stated for call/cc in operand position (CALL) and receivers that do not invoke a "
             "continuation before returning (Trace); for call/cc in tail position (TCALL) capture and invocation theorems "
             "hold as stated but the normal-return comparison is one instruction off (the RET after the TCALL) and not "
-            "stated. Liveness of captured continuations across collections (T05.5) belongs to C03's marker theorems.",
+            "stated. Liveness of captured continuations across collections (T05.5) belongs to C03's marker theorems. ROUND 5: the bytecode verifier is value-typed (val | argc n | any) and WF-stack is re-proved for it (all 16 opcodes; continuation snapshots now also record that they resume at a non-prologue instruction and that typed cells hold values); every theorem above is unchanged in statement. NOT done: invoke_run_same_result_machine (the statement on concreteOps without the callee guard). What it needs beyond C04's tail_loop_sp_machine: LiveLaws for concreteLawsV (same proof as concreteLiveLaws) and the guard-invisibility bridge step_vops in BOTH directions along BOTH runs (the run after the invocation and the run from the constructed Resume state, which is not a Reaches-successor of an initial VmOk state), i.e. GoodI / CalleeOk / size hypotheses on the second run as well.",
     "technique": "Lean 4 proof (capture/restore lemmas over an abstract heap, any later state; write-set and live-read lemmas per instruction over the WF-stack invariant; run-level congruence) + lock-step replay + scenario oracle with closed-form expectations",
 }
 MODULE = "Marwood.Proofs.C05"
